@@ -1,9 +1,14 @@
 from vp import Obl
 from obl.dbimpl_readers import snaplist_obls, reader_obls, GET, SNAPSHOT, RELEASE, ITER
+from obl.dbimpl_common import write_obls
 
 # a: the snapshot list itself; c: reads are filtered by the snapshot, snapshots
 # are taken / released under the mutex (db_impl monitor family, read side)
 OBLIGATIONS = snaplist_obls("a") + reader_obls("c", fns=(GET, SNAPSHOT, RELEASE, ITER), want=lambda t: not t[2])
+# e: a snapshot's sequence never covers a batch that is not yet completely in the
+# memtable (otherwise the view would change under the snapshot while the write
+# finishes): the writer publishes last_sequence only after the insert (real ldb_write)
+OBLIGATIONS += write_obls("e", quick=((0, 0, 0, -1), (0, 1, 0, -1)), thorough=((1, 1, 0, -1),))
 for _o in OBLIGATIONS:
     # also in C08's quick tier; keep this property's quick tier short
     if _o.name in ("c.get-snap1-optnull0-has1-klen0-es1", "c.release-snap0-optnull0-has0-klen2-es1"):
